@@ -522,14 +522,19 @@ func c06ParseMain(name string, args []string) int {
 		// each abstract token is tokenized on its own, so adjacent tokens never fuse
 		var toks []parser.Token
 		var texts []string
-		for _, a := range s.Toks {
-			t := parser.Tokenize([]byte(absText[a]), false)
+		for i, a := range s.Toks {
+			txt := absText[a]
+			if a == "{}" {
+				// (the contents of a block do not matter to the rule consumers: also the empty and the blank block)
+				txt = []string{"{a:b;c}", "{}", "{ }"}[(out.Cur+i)%3]
+			}
+			t := parser.Tokenize([]byte(txt), false)
 			if len(t) != 1 {
 				out.Fatal(fmt.Sprintf("abstract token %q -> %d tokens", a, len(t)))
 				return
 			}
 			toks = append(toks, t[0])
-			texts = append(texts, absText[a])
+			texts = append(texts, txt)
 		}
 		var res []parser.Compound
 		switch s.Entry {
